@@ -264,10 +264,40 @@ pub fn run() {{
             mods.append((key2, mod2))
             ext_keys.append(key2)
             meta[key2] = ({"vs": [{"disc": {"op": "lit"}}], "discs": [], "extremes": t, "_module": mod2}, "")
+    # LONG runs of implicit discriminants after an explicit one: the offset added to the last explicit value outgrows what a
+    # literal of the repr type can say long before the discriminants themselves do (`V0 = -128` + 139 more variants in i8)
+    for t, first, count in (("i8", "-128", 140), ("i8", "-1", 100), ("u8", "0", 256), ("i8", "-128", 256), ("u8", "200", 56)):
+        key = f"long:{t}:{first}:{count}"
+        if replay and json.load(open(replay))["key"] != key:
+            continue
+        vs_ = ", ".join([f"V0 = {first}"] + [f"V{i}" for i in range(1, count)])
+        mod = f"""use super::*;
+#[derive(derive_more::TryFrom, Debug, PartialEq, Clone, Copy)]
+#[try_from(repr)]
+#[repr({t})]
+pub enum En {{ {vs_} }}
+pub fn run() {{
+    let mut bad: Vec<String> = vec![];
+    let mut checked = 0u64;
+    let lo = {first} as i32; let hi = lo + {count} - 1;
+    for n in <{t}>::MIN..=<{t}>::MAX {{
+        checked += 1;
+        match <En as core::convert::TryFrom<{t}>>::try_from(n) {{
+            Ok(v) if (v as {t}) == n && (n as i32) >= lo && (n as i32) <= hi => {{}}
+            Err(e) if e.input == n && ((n as i32) < lo || (n as i32) > hi) => {{}}
+            other => bad.push(format!("{{}}: {{:?}}", n, other.map(|v| v as {t}).map_err(|e| e.input))),
+        }}
+    }}
+    println!("OBS {{{{\\"k\\": {{:?}}, \\"casts\\": [], \\"mismatches\\": {{}}, \\"first\\": {{:?}}, \\"checked\\": {{}}, \\"bad_err_payload\\": 0}}}}",
+             {json.dumps(key)}, bad.len(), bad.iter().take(4).collect::<Vec<_>>(), checked);
+}}"""
+        mods.append((key, mod))
+        ext_keys.append(key)
+        meta[key] = ({"vs": [{"disc": {"op": "lit"}}], "discs": [], "extremes": t, "_module": mod}, "")
     if not replay:
         # rustc cannot take an unbounded number of probe modules: the <= 2-variant enums, then a seeded share
         keep = vlib.cap_cases([k for k, _ in mods], seed, 12000 if tier == "quick" else 30000,
-                              keep=lambda k: len(meta[k][0]["vs"]) <= 2 or k.startswith("extremes:"))
+                              keep=lambda k: len(meta[k][0]["vs"]) <= 2 or k.startswith(("extremes:", "long:")))
         mods = [m for m in mods if m[0] in keep]
     log(f"[C12] {len(mods)} enums")
     nsh = 4 if tier == "quick" else 12
